@@ -620,6 +620,7 @@ func checkC04(c *Ctx) {
 	c.dispatchGuard()
 	c.eligibilityPredicate()
 	_ = p
+	c.mirrorDelivered()
 }
 
 // healthWriters: who may write the flag / the window, and with what.
@@ -1154,4 +1155,51 @@ func reachesAvoiding(from, to, avoid *ssa.BasicBlock, seen map[*ssa.BasicBlock]b
 		}
 	}
 	return false
+}
+
+// mirrorDelivered: the metrics collector applies every health update it is given — on every path the
+// entry under the caller's backend name receives the caller's value (no early return that leaves the
+// endpoint reporting an ejected backend as healthy).
+func (c *Ctx) mirrorDelivered() {
+	p := c.P
+	fn := p.Fn("internal/metrics", "MetricsCollector", "UpdateBackendHealth")
+	const bT = "metrics.BackendMetrics."
+	sp := &Spec{
+		Event: func(in ssa.Instruction, fr *Frame) string {
+			if k, st := storeKey(in); k == bT+"IsHealthy" {
+				return "store IsHealthy := " + p.Desc(st.Val, fr)
+			}
+			if mu, ok := in.(*ssa.MapUpdate); ok {
+				return "map[" + p.Desc(mu.Key, fr) + "]"
+			}
+			if lk, ok := in.(*ssa.Lookup); ok && strings.Contains(p.Desc(lk.X, fr), "BackendMetrics") {
+				return "lookup[" + p.Desc(lk.Index, fr) + "]"
+			}
+			return ""
+		},
+		Cond: p.anyCondLabel(),
+		Expand: func(callee *ssa.Function, site ssa.CallInstruction) bool {
+			pk := fnPkg(callee)
+			return pk != nil && strings.HasSuffix(pk.Pkg.Path(), "/internal/metrics") && !callee.Object().Exported()
+		},
+	}
+	c.traceRule("health-mirror-delivered", "metrics.(*MetricsCollector).UpdateBackendHealth", fn, sp,
+		"every path stores the caller's value into the entry kept under the caller's backend name",
+		func(t *Trace) string {
+			if t.Exit != ExitNormal {
+				return ""
+			}
+			if !t.Has("store IsHealthy := param:isHealthy") {
+				return "a path returns without recording the health value it was given: the metrics and health endpoints keep reporting the previous state (an ejected backend stays 'healthy')"
+			}
+			for _, it := range t.Items {
+				if strings.HasPrefix(it.Label, "lookup[") && it.Label != "lookup[param:backendName]" {
+					return "the entry is looked up under something other than the caller's backend name: " + it.Label
+				}
+				if strings.HasPrefix(it.Label, "map[") && it.Label != "map[param:backendName]" {
+					return "the entry is installed under something other than the caller's backend name: " + it.Label
+				}
+			}
+			return ""
+		})
 }
